@@ -224,6 +224,16 @@ def gen_enums():
 # vector parameters, constants
 # --------------------------------------------------------------------------------------------------
 
+def code_size(cls):
+    """width in bytes of the code points a factory / fallback class reads (`get_byte_num()`), 0 when it has none"""
+    if cls is None or not hasattr(cls, 'get_byte_num'):
+        return 0
+    try:
+        return int(cls.get_byte_num())
+    except Exception:  # pylint: disable=broad-except
+        return 0
+
+
 def gen_vectors():
     out = ['/- GENERATED by tools/extract.py from the live cryptoparser code. Do not edit. -/',
            'namespace Cp.Gen', '',
@@ -239,6 +249,8 @@ def gen_vectors():
            '  itemSize : Nat',
            '  itemClass : String',
            '  fallbackClass : String',
+           '  itemCodeSize : Nat      -- code width of the item factory (0: items are not code points)',
+           '  fallbackCodeSize : Nat  -- code width of the fallback class (0: no fallback)',
            '']
     names = []
     for cls in all_subclasses(cpbase.ArrayBase):
@@ -256,12 +268,14 @@ def gen_vectors():
         names.append(cls.__name__)
         out.append('/-- `{}.{}` -/'.format(cls.__module__, cls.__name__))
         out.append('def vec_{n} : VecP :=\n  {{ name := {q}, kind := {k}, min := {mi}, max := {ma}, numSize := {ns}, itemSize := {isz},\n'
-                   '    itemClass := {ic}, fallbackClass := {fc} }}'.format(
+                   '    itemClass := {ic}, fallbackClass := {fc}, itemCodeSize := {ics}, fallbackCodeSize := {fcs} }}'.format(
                        n=cls.__name__, q=lean_str(cls.__name__), k=lean_str(kinds[0] if kinds else ''),
                        mi=param.min_byte_num, ma=param.max_byte_num, ns=param.item_num_size,
                        isz=getattr(param, 'item_size', None) or 0,
                        ic=lean_str(getattr(getattr(param, 'item_class', None), '__name__', '') or ''),
-                       fc=lean_str(getattr(getattr(param, 'fallback_class', None), '__name__', '') or '')))
+                       fc=lean_str(getattr(getattr(param, 'fallback_class', None), '__name__', '') or ''),
+                       ics=code_size(getattr(param, 'item_class', None)),
+                       fcs=code_size(getattr(param, 'fallback_class', None))))
         out.append('')
     out.append('def vecParams : List VecP :=\n  {}'.format(lean_list(('vec_' + n for n in names), 4)))
     out.append('')
